@@ -122,7 +122,11 @@ var loadPatterns = []string{"./pkg/...", "./cni/...", "./cmd/...", "./tools/..."
 
 // Load type-checks the module packages of repoDir (optionally with an overlay) and builds SSA.
 func Load(repoDir string, overlay map[string][]byte, allSyntax bool) (*Ctx, error) {
-	return LoadMod(repoDir, overlay, allSyntax, modPath, loadPatterns, guardSpecs)
+	c, err := LoadMod(repoDir, overlay, allSyntax, modPath, loadPatterns, guardSpecs)
+	if err == nil {
+		resolveRenames(c)
+	}
+	return c, err
 }
 
 // LoadMod loads an arbitrary module (used for the engine self-tests on /verif/checker/testdata).
@@ -197,10 +201,41 @@ func short(s string) string { return strings.ReplaceAll(s, modPath, "@/") }
 // fnName is the canonical printable name of an SSA function, e.g.
 // "(*@/pkg/ipam/floatingip.crdIpam).Release" or "@/pkg/ipam/floatingip.walkIPRanges" or "...$1".
 func fnName(fn *ssa.Function) string {
+	n := rawFnName(fn)
+	if len(renamedFrom) == 0 {
+		return n
+	}
+	base, rest := n, ""
+	if i := strings.Index(n, "$"); i >= 0 {
+		base, rest = n[:i], n[i:]
+	}
+	if o, ok := renamedFrom[base]; ok {
+		return o + rest // a renamed function keeps the name the rules know (renames.go)
+	}
+	return n
+}
+
+// rawFnName: the name in the analysed program
+func rawFnName(fn *ssa.Function) string {
 	if fn == nil {
 		return "<nil>"
 	}
 	return short(fn.String())
+}
+
+// bareName: fn.Name() under the name the rules know
+func bareName(fn *ssa.Function) string {
+	if fn == nil {
+		return ""
+	}
+	if len(renamedFrom) > 0 {
+		if o, ok := renamedFrom[rawFnName(fn)]; ok {
+			if i := strings.LastIndex(o, "."); i >= 0 {
+				return o[i+1:]
+			}
+		}
+	}
+	return fn.Name()
 }
 
 // Fn resolves "pkg/ipam/floatingip", "(*crdIpam).Release" | "walkIPRanges" | "New$1" to an SSA function.
@@ -225,6 +260,9 @@ func (c *Ctx) Fn(pkg, name string) *ssa.Function {
 			return fn
 		}
 	}
+	if fn := renamedTo[short(want)]; fn != nil {
+		return fn
+	}
 	// an unexported method turned into a free function of the same package (or the reverse) keeps its name: accept the one
 	// function of that package with that name
 	if strings.HasPrefix(name, "(") {
@@ -239,7 +277,7 @@ func (c *Ctx) Fn(pkg, name string) *ssa.Function {
 				}
 			}
 			if n == 1 && found.Signature.Recv() == nil && !found.Object().Exported() {
-				convertedAnchors[found] = true
+				noteConverted(found, strings.TrimPrefix(name[1:i], "*"))
 				return found
 			}
 		}
@@ -408,12 +446,24 @@ func (c *Ctx) constString(pkg, name string) (string, bool) {
 // index the rule uses is one too high)
 var convertedAnchors = map[*ssa.Function]bool{}
 
+// recvAsParam: converted anchors whose former receiver is now their first parameter (parameter indexes stay, and the first
+// argument of a call plays the receiver's part)
+var recvAsParam = map[*ssa.Function]bool{}
+
+// noteConverted records that free function f stands for the method of type recvType (bare type name) of the same name.
+func noteConverted(f *ssa.Function, recvType string) {
+	convertedAnchors[f] = true
+	if len(f.Params) > 0 && namedStructName(f.Params[0].Type()) == recvType {
+		recvAsParam[f] = true
+	}
+}
+
 // pAt: parameter k of fn in the numbering the rule was written for (receiver = 0 for methods); nil when there is none
 func pAt(fn *ssa.Function, k int) *ssa.Parameter {
 	if fn == nil {
 		return nil
 	}
-	if convertedAnchors[fn] {
+	if convertedAnchors[fn] && !recvAsParam[fn] {
 		k--
 	}
 	if k < 0 || k >= len(fn.Params) {
